@@ -12,7 +12,7 @@ from typing import Any, Dict, List, Optional
 from . import model as M
 from . import model_ser as S
 from . import pools as P
-from .model_ser import Conv, Dyn, SerM, SFld, SObj
+from .model_ser import Conv, Dyn, SerM, SFld, SObj, Spec, TVar
 from .pools import A, B, BOOL, FLOAT, INT, NONE, STR, Ann, AnyT, Coll, Disc, Enm, Fld, Lit, Mapp, NewT, Obj, Opt, Prim, Ref, TD, Tup, Uni, cons
 
 # -- serialized methods / properties ---------------------------------------------------------
@@ -32,6 +32,32 @@ SM1 = SObj(
 SM2 = SObj("dataclass", "SM2", (), serialized=(SerM("only", INT, "const7", kind="property"), SerM("never", STR, "undef", undefined=True), SerM("pair", Tup((INT, STR)), "const_pair")))
 S.BODIES["const_pair"] = lambda s: (1, "p")
 SM3 = SObj("dataclass", "SM3", (Fld("a", INT, alias="A"),), serialized=(SerM("a_txt", INT, "a_plus1", alias="some_alias", conv=Conv("str", INT, STR)), SerM("null", Opt(STR), "none", kind="property")))
+# error handlers (docs "Error handling") and generic owners (docs "Generic serialized methods")
+SM4 = SObj(
+    "dataclass",
+    "SM4",
+    (Fld("a", INT),),
+    serialized=(
+        SerM("risky_none", INT, "raise_if_a0", on_error="none"),
+        SerM("risky_text", INT, "raise_if_a0", on_error="text", kind="property"),
+        SerM("risky_undef", INT, "raise_if_a0", on_error="undef"),
+        SerM("risky_int", STR, "a_str_or_raise", on_error="minus1", alias="r_i"),
+    ),
+)
+S.BODIES["a_str_or_raise"] = lambda s: S._raise(KeyError("a")) if s.a == 0 else str(s.a)
+BOX = SObj(
+    "dataclass",
+    "Box",
+    (SFld("content", TVar()), SFld("fail", BOOL, has_default=True, default=False), SFld("more", Coll("list", TVar()), factory="list")),
+    generic=True,
+    serialized=(
+        SerM("same", TVar(), "content"),
+        SerM("boxed", Coll("list", TVar()), "content_list", kind="property"),
+        SerM("risky", TVar(), "content_or_raise", on_error="none"),
+        SerM("risky_txt", Opt(TVar()), "content_or_raise", on_error="text", alias="r_t"),
+    ),
+)
+SPECS = [Spec(BOX, INT), Spec(BOX, STR), Spec(BOX, A), Spec(BOX, Opt(INT)), Coll("list", Spec(BOX, INT)), Spec(BOX, Coll("list", P.COLOR))]
 # -- skip / none_as_undefined / Undefined ---------------------------------------------------------
 SK = SObj(
     "dataclass",
@@ -45,6 +71,10 @@ SK = SObj(
         SFld("s", STR, has_default=True, default="", skip_ser_if_falsy=True),
     ),
 )
+# Any-typed fields (None is a value of Any)
+ANYF = SObj("dataclass", "AnyF", (SFld("x", AnyT()), SFld("y", AnyT(), has_default=True, default=None), SFld("z", INT, has_default=True, default=0)))
+# serialization_default on a None default
+SK2 = SObj("dataclass", "SK2", (SFld("on", Opt(INT), has_default=True, default=None, skip_ser_default=True), SFld("k", INT, has_default=True, default=1)))
 NU = SObj("dataclass", "NU", (SFld("req", Opt(INT), none_as_undefined=True), SFld("bar", Opt(STR), has_default=True, default=None, none_as_undefined=True), SFld("plain", Opt(STR), has_default=True, default=None)))
 UD = SObj(
     "dataclass",
@@ -145,7 +175,7 @@ DYNS = [
 KS = SObj("dataclass", "KS", (SFld("some_field", INT), SFld("other_field", Opt(INT), has_default=True, default=None, none_as_undefined=True), SFld("kept", INT, alias="z_z", no_override_alias=True, has_default=True, default=1)), class_aliaser="prefix")
 TD3 = Obj("typeddict", "TD3", (Fld("some_key", INT), Fld("opt_key", Opt(STR), td_required=False)))
 
-SER_OBJECTS: List[TD] = [SM1, SM2, SM3, SK, NU, UD, UD2, DF, RO, FS1, FS2, FS3, FS4, FSP, FSD, UB, DS, SM1S, CV1, RS, RS2, CV2, KS, TD3]
+SER_OBJECTS: List[TD] = [SM1, SM2, SM3, SM4, ANYF, SK, SK2, NU, UD, UD2, DF, RO, FS1, FS2, FS3, FS4, FSP, FSD, UB, DS, SM1S, CV1, RS, RS2, CV2, KS, TD3]
 SER_EXTRA: List[TD] = [
     Coll("list", SM1),
     Opt(SK),
@@ -156,17 +186,25 @@ SER_EXTRA: List[TD] = [
     Coll("list", FSP),
     Opt(DS),
     Uni((RS, INT)),
+    Uni((Tup((INT, STR)), Tup((INT, STR, BOOL)))),
+    Uni((Tup((INT,)), Tup((INT, A)), Coll("list", INT))),
     Coll("set", P.COLOR),
     Coll("frozenset", Tup((INT, STR))),
     Mapp(P.NAME, Coll("list", P.COLOR)),
-    Enm("Mixed", (("I", 1), ("S", "s"), ("N", None), ("T", (1, 2)))),
+    Enm("MixedP", (("I", 1), ("S", "s"), ("B", True))),
     Coll("list", TD3),
     Opt(RO),
 ]
 
 
-def ser_pool(tier: str, conversions: bool = True) -> List[TD]:
-    pool = list(P.type_pool(tier)) + SER_OBJECTS + SER_EXTRA
+MIXED = Enm("Mixed", (("I", 1), ("S", "s"), ("N", None), ("T", (1, 2))))
+
+
+def ser_pool(tier: str, conversions: bool = True, for_schema: bool = False) -> List[TD]:
+    pool = list(P.type_pool(tier)) + SER_OBJECTS + SER_EXTRA + SPECS
+    if not for_schema:
+        # schema generation documents "Only primitive types are supported for Literal/Enum"
+        pool.append(MIXED)
     if conversions:
         pool += DYNS
     if tier == "thorough":
@@ -215,6 +253,8 @@ class Gen:
         w = self.width if depth == 0 else 2
         if isinstance(td, Dyn):
             return self.values(td.t, depth)
+        if isinstance(td, Spec):
+            return self.values(S.subst(td.obj, td.arg), depth)
         if isinstance(td, Prim):
             return {"int": [7, 0, -1], "float": [2.5, 0.0, 1.0], "str": ["ab", "", "a"], "bool": [True, False], "none": [None]}[td.name]
         if isinstance(td, AnyT):
@@ -296,6 +336,8 @@ class Gen:
             return self.values(Coll(td.kind, INT), 9)[0]
         if isinstance(td, Mapp):
             return {}
+        if isinstance(td, Spec):
+            return self.shallow(S.subst(td.obj, td.arg))
         if isinstance(td, (Ann, NewT, Dyn)):
             return self.shallow(td.t)
         if isinstance(td, Ref):
@@ -315,6 +357,17 @@ class Gen:
     def field_values(self, td: Obj, f: Fld, depth: int) -> List[Any]:
         t = Ann(f.t, f.cons) if f.cons else f.t
         base = list(self.values(t, depth + 1))
+        if f.pattern is not None:
+            # a pattern-properties field holds the properties whose name matches the pattern
+            import re
+
+            pat = re.compile(f.pattern)
+            stem = f.pattern.lstrip("^").rstrip("$")
+            vs = self.values(S.strip(f.t, self.realm).v, depth + 2)
+            base = [m for m in base if all(isinstance(k, str) and pat.match(k) for k in m)]
+            for m in ({stem + "1": vs[0]}, {stem + "1": vs[0], stem + "_b": vs[-1]}):
+                if all(pat.match(k) for k in m):
+                    base.insert(0, m)
         out = base[: self.width + 1]
         # boundary values of the omission rule: falsy, None, default, Undefined
         for x in base:
